@@ -178,10 +178,14 @@ pub fn params(profile: &str) -> Params {
         "cyclic" => {
             set(&mut p.w, &[(O::NewCyclic, 16), (O::NewCyclicLeaf, 5), (O::Upgrade, 8), (O::UpgradeDrop, 4), (O::WeakDrop, 4), (O::CfgBuffered, 3), (O::CfgAuto, 2)]);
             p.auto_rate = 80;
+            p.drop_rate = 35;
+            p.drop_minis = vec![(M::AllocCyclic, 4), (M::WeakToRoot, 2), (M::Collect, 1), (M::Alloc, 1)];
         }
         "cyclic-faults" => {
             set(&mut p.w, &[(O::NewCyclic, 16), (O::NewCyclicLeaf, 5), (O::Upgrade, 8), (O::UpgradeDrop, 4), (O::WeakDrop, 4), (O::CfgBuffered, 3), (O::CfgAuto, 2)]);
             p.auto_rate = 90;
+            p.drop_rate = 35;
+            p.drop_minis = vec![(M::AllocCyclic, 4), (M::WeakToRoot, 2), (M::Collect, 1), (M::Alloc, 1)];
             p.faults = 100;
             p.fault_kinds = vec![FaultKind::Closure, FaultKind::Closure, FaultKind::Trace, FaultKind::TraceEdge, FaultKind::Finalize, FaultKind::Drop];
         }
